@@ -375,6 +375,36 @@ class Check:
         return 1 if self.violations else 0
 
 
+def ddmin(seq, failing_batch, max_rounds=40):
+    """Delta debugging over a list: failing_batch(list of candidate lists) -> list of bools (candidate still fails).
+    Candidates of one round are judged in ONE batch (one TLC + one harness run).  Returns a 1-minimal-ish failing list."""
+    seq = list(seq)
+    n = 2
+    rounds = 0
+    while len(seq) >= 2 and rounds < max_rounds:
+        rounds += 1
+        size = max(1, len(seq) // n)
+        chunks = [seq[i:i + size] for i in range(0, len(seq), size)]
+        cands = []
+        for i in range(len(chunks)):
+            comp = [x for j, c in enumerate(chunks) if j != i for x in c]
+            if comp:
+                cands.append(comp)
+        cands += [c for c in chunks if len(c) < len(seq)]
+        if not cands:
+            break
+        res = failing_batch(cands)
+        hit = next((c for c, bad in zip(cands, res) if bad), None)
+        if hit is not None:
+            seq = hit
+            n = max(2, n - 1)
+        elif n >= len(seq):
+            break
+        else:
+            n = min(len(seq), n * 2)
+    return seq
+
+
 def shard_lines(lines, n):
     """split a list of lines into n nearly equal shards"""
     k = max(1, (len(lines) + n - 1) // n)
